@@ -7,7 +7,7 @@ PROPS["C18"] = dict(
                       "auth.sa.empty", "auth.sa.url", "auth.sa.bare", "auth.sa.bad",
                       "auth.form.userpass", "auth.form.token", "auth.form.base64",
                       "pull.invalid-ref", "pull.backend-fails", "query.docker-alias", "case.starts-unconnected"]),
-        dict(cmd="credsfetch", mod="root", model="Model.Headers", quick=240, thorough=12000, shard=60,
+        dict(cmd="credsfetch", mod="root", model="Model.Headers", quick=240, thorough=12000, shard=60, race=1500,
              # only keys that depend on the generated inputs, not on what the implementation does with them
              require=["mirror.table.nil", "mirror.table.empty", "mirror.table.one", "mirror.table.multi", "mirror.value.s", "mirror.value.l",
                       "mirror.invalid", "mirrors.0", "mirrors.2", "mirrors.3", "spawn.fetch", "spawn.check",
